@@ -1,10 +1,38 @@
 (* The transcription of glob::Pattern::matches_from (Model/Glob.v), with its three-valued
    result and its early exits, decides the declarative relation gmatch (Model/GlobSpec.v);
    consequences for separators and leading dots. *)
-From Coq Require Import List NArith Bool Lia.
+From Coq Require Import List NArith Bool Lia Wf_nat.
 From Okv Require Import Model.Glob Model.GlobSpec.
 Import ListNotations.
 Open Scope N_scope.
+
+(* ---------- character classes ---------- *)
+
+Lemma in_specs_iff : forall cs c, in_specs cs c = true <-> in_class cs c.
+Proof.
+  induction cs as [|sp cs IH]; intro c.
+  - split; [discriminate|]. intros [sp [[] _]].
+  - destruct sp as [a|lo hi]; cbn [in_specs]; rewrite orb_true_iff, IH; split.
+    + intros [H|[sp [H1 H2]]].
+      * apply N.eqb_eq in H. exists (SingleChar a). split; [left; reflexivity|exact H].
+      * exists sp. split; [right; exact H1|exact H2].
+    + intros [sp [[H1|H1] H2]].
+      * subst sp. left. apply N.eqb_eq. exact H2.
+      * right. exists sp. split; assumption.
+    + intros [H|[sp [H1 H2]]].
+      * apply andb_true_iff in H. destruct H as [Ha Hb]. apply N.leb_le in Ha, Hb.
+        exists (CharRange lo hi). split; [left; reflexivity|split; assumption].
+      * exists sp. split; [right; exact H1|exact H2].
+    + intros [sp [[H1|H1] H2]].
+      * subst sp. destruct H2 as [Ha Hb]. left. apply andb_true_iff. split; apply N.leb_le; assumption.
+      * right. exists sp. split; assumption.
+Qed.
+
+Lemma in_specs_false_iff : forall cs c, in_specs cs c = false <-> ~ in_class cs c.
+Proof.
+  intros cs c. rewrite <- in_specs_iff. destruct (in_specs cs c); split; intro H; try reflexivity; try discriminate.
+  - exfalso. apply H. reflexivity.
+Qed.
 
 (* the while loop of the AnySequence arm, named *)
 Fixpoint seq_loop (rest : list token) (follows : bool) (file : str) : mresult :=
@@ -36,14 +64,16 @@ Qed.
 
 Lemma gmatch_weaken : forall f ts s, gmatch f ts s -> gmatch false ts s.
 Proof.
+  assert (W : forall f c, wild_ok f c = true -> wild_ok false c = true).
+  { intros f c H. unfold wild_ok in *. apply andb_true_iff in H. destruct H as [H1 _]. rewrite H1. reflexivity. }
   intros f ts s H. induction H.
   - constructor.
   - constructor. assumption.
-  - apply GM_any; [|assumption]. unfold wild_ok in *. apply andb_true_iff in H. destruct H as [H1 _].
-    rewrite H1. reflexivity.
+  - apply GM_any; [|assumption]. eapply W; eassumption.
+  - apply GM_within; [|assumption|assumption]. eapply W; eassumption.
+  - apply GM_except; [|assumption|assumption]. eapply W; eassumption.
   - apply GM_seq_nil. assumption.
-  - apply GM_seq_cons; [|assumption]. unfold wild_ok in *. apply andb_true_iff in H. destruct H as [H1 _].
-    rewrite H1. reflexivity.
+  - apply GM_seq_cons; [|assumption]. eapply W; eassumption.
 Qed.
 
 Definition head_not_dot (s : str) : Prop := match s with c :: _ => (c =? DOT) = false | [] => True end.
@@ -57,6 +87,8 @@ Proof.
   - constructor.
   - constructor. assumption.
   - apply GM_any; [|assumption]. cbn in Hd. rewrite (wild_ok_not_dot f' f c Hd). assumption.
+  - apply GM_within; [|assumption|assumption]. cbn in Hd. rewrite (wild_ok_not_dot f' f c Hd). assumption.
+  - apply GM_except; [|assumption|assumption]. cbn in Hd. rewrite (wild_ok_not_dot f' f c Hd). assumption.
   - apply GM_seq_nil. apply IHgmatch. assumption.
   - apply GM_seq_cons; [|assumption]. cbn in Hd. rewrite (wild_ok_not_dot f' f c Hd). assumption.
 Qed.
@@ -174,6 +206,16 @@ Lemma gm_any_inv : forall f ts s,
   gmatch f (AnyChar :: ts) s -> exists c s1, s = c :: s1 /\ wild_ok f c = true /\ gmatch false ts s1.
 Proof. intros f ts s H. inversion H; subst. do 2 eexists; repeat split; [assumption|assumption]. Qed.
 
+Lemma gm_within_inv : forall f cs ts s,
+  gmatch f (AnyWithin cs :: ts) s ->
+  exists c s1, s = c :: s1 /\ wild_ok f c = true /\ in_class cs c /\ gmatch false ts s1.
+Proof. intros f cs ts s H. inversion H; subst. do 2 eexists; repeat split; assumption. Qed.
+
+Lemma gm_except_inv : forall f cs ts s,
+  gmatch f (AnyExcept cs :: ts) s ->
+  exists c s1, s = c :: s1 /\ wild_ok f c = true /\ ~ in_class cs c /\ gmatch false ts s1.
+Proof. intros f cs ts s H. inversion H; subst. do 2 eexists; repeat split; assumption. Qed.
+
 Lemma mf_correct : forall ts, sound_M ts /\ sound_S ts /\ sound_E ts.
 Proof.
   induction ts as [|t rest [IHM [IHS IHE]]].
@@ -181,7 +223,7 @@ Proof.
     + intros f s H. destruct s; [constructor|discriminate].
     + intros f s H G. destruct s; [discriminate|]. inversion G.
     + intros f s H. destruct s; discriminate.
-  - destruct t as [c2| |].
+  - destruct t as [c2| | |cs|cs].
     + (* Char *)
       repeat split.
       * intros f s H. destruct s as [|c s1]; [discriminate|]. cbn [matches_from] in H.
@@ -230,6 +272,54 @@ Proof.
         -- destruct (loop_correct rest IHM IHS IHE s f R) as [_ [_ L3]]. exact (L3 H f' w s' Hs).
         -- intro G. apply seq_inv in G. destruct G as [w2 [s2 [f2 [Hs2 [G2 _]]]]].
            subst s'. rewrite app_assoc in Hs. exact (IHE _ _ R f2 _ s2 Hs G2).
+    + (* AnyWithin *)
+      repeat split.
+      * intros f s H. destruct s as [|c s1]; [discriminate|]. cbn [matches_from] in H.
+        destruct (is_sep c || (f && (c =? DOT))) eqn:E; [discriminate|].
+        apply wild_ok_true_any in E. destruct E as [W Es]. rewrite Es in H.
+        destruct (in_specs cs c) eqn:Ec; [|discriminate].
+        apply GM_within; [exact W|apply in_specs_iff; exact Ec|]. apply IHM. exact H.
+      * intros f s H G. destruct s as [|c s1]; [discriminate|]. cbn [matches_from] in H.
+        apply gm_within_inv in G. destruct G as [c' [s2 [Es [W [I G]]]]]. injection Es as Ec Es. subst c' s2.
+        destruct (is_sep c || (f && (c =? DOT))) eqn:E.
+        -- apply wild_ok_false_any in E. congruence.
+        -- apply wild_ok_true_any in E. destruct E as [_ Es]. rewrite Es in H.
+           apply in_specs_iff in I. rewrite I in H. exact (IHS _ _ H G).
+      * intros f s H f' w s' Hs G.
+        apply gm_within_inv in G. destruct G as [c' [s2 [Es [W [I G]]]]]. subst s'.
+        destruct s as [|c0 s1].
+        { destruct w; discriminate. }
+        cbn [matches_from] in H.
+        destruct (is_sep c0 || (f && (c0 =? DOT))) eqn:E; [discriminate|].
+        apply wild_ok_true_any in E. destruct E as [_ Es]. rewrite Es in H.
+        destruct (in_specs cs c0) eqn:Ec0; [|discriminate].
+        apply suffix_cons in Hs. destruct Hs as [[Hw Hs]|[w' [Hw Hs]]].
+        -- injection Hs as Hc Hs. subst. exact (IHE _ _ H _ [] s1 eq_refl G).
+        -- refine (IHE _ _ H _ (w' ++ [c']) s2 _ G). rewrite <- app_assoc. exact Hs.
+    + (* AnyExcept *)
+      repeat split.
+      * intros f s H. destruct s as [|c s1]; [discriminate|]. cbn [matches_from] in H.
+        destruct (is_sep c || (f && (c =? DOT))) eqn:E; [discriminate|].
+        apply wild_ok_true_any in E. destruct E as [W Es]. rewrite Es in H.
+        destruct (in_specs cs c) eqn:Ec; [discriminate|]. cbn [negb] in H.
+        apply GM_except; [exact W|apply in_specs_false_iff; exact Ec|]. apply IHM. exact H.
+      * intros f s H G. destruct s as [|c s1]; [discriminate|]. cbn [matches_from] in H.
+        apply gm_except_inv in G. destruct G as [c' [s2 [Es [W [I G]]]]]. injection Es as Ec Es. subst c' s2.
+        destruct (is_sep c || (f && (c =? DOT))) eqn:E.
+        -- apply wild_ok_false_any in E. congruence.
+        -- apply wild_ok_true_any in E. destruct E as [_ Es]. rewrite Es in H.
+           apply in_specs_false_iff in I. rewrite I in H. cbn [negb] in H. exact (IHS _ _ H G).
+      * intros f s H f' w s' Hs G.
+        apply gm_except_inv in G. destruct G as [c' [s2 [Es [W [I G]]]]]. subst s'.
+        destruct s as [|c0 s1].
+        { destruct w; discriminate. }
+        cbn [matches_from] in H.
+        destruct (is_sep c0 || (f && (c0 =? DOT))) eqn:E; [discriminate|].
+        apply wild_ok_true_any in E. destruct E as [_ Es]. rewrite Es in H.
+        destruct (in_specs cs c0) eqn:Ec0; [discriminate|]. cbn [negb] in H.
+        apply suffix_cons in Hs. destruct Hs as [[Hw Hs]|[w' [Hw Hs]]].
+        -- injection Hs as Hc Hs. subst. exact (IHE _ _ H _ [] s1 eq_refl G).
+        -- refine (IHE _ _ H _ (w' ++ [c']) s2 _ G). rewrite <- app_assoc. exact Hs.
 Qed.
 
 Theorem matches_from_iff : forall ts f s, matches_from ts f s = Match <-> gmatch f ts s.
@@ -262,6 +352,8 @@ Lemma gmatch_count_sep : forall f ts s, gmatch f ts s -> count_sep s = count_sep
 Proof.
   intros f ts s H. induction H; cbn [count_sep count_sep_tokens]; try lia.
   - unfold wild_ok in H. apply andb_true_iff in H. destruct H as [H _]. apply negb_true_iff in H. rewrite H. lia.
+  - unfold wild_ok in H. apply andb_true_iff in H. destruct H as [H _]. apply negb_true_iff in H. rewrite H. lia.
+  - unfold wild_ok in H. apply andb_true_iff in H. destruct H as [H _]. apply negb_true_iff in H. rewrite H. lia.
   - unfold wild_ok in H. apply andb_true_iff in H. destruct H as [H _]. apply negb_true_iff in H. rewrite H.
     cbn [count_sep_tokens] in IHgmatch. lia.
 Qed.
@@ -284,6 +376,8 @@ Proof.
   intros ts b H. remember true as f eqn:Ef. remember (DOT :: b) as s eqn:Es.
   induction H; try discriminate.
   - injection Es as Ec Es. subst. exists [], ts. repeat split; [constructor|]. exact H.
+  - injection Es as Ec Es. subst. unfold wild_ok in H. cbn in H. discriminate.
+  - injection Es as Ec Es. subst. unfold wild_ok in H. cbn in H. discriminate.
   - injection Es as Ec Es. subst. unfold wild_ok in H. cbn in H. discriminate.
   - subst. destruct (IHgmatch eq_refl eq_refl) as [stars [tb [E1 [E2 E3]]]].
     exists (AnySequence :: stars), tb. subst ts. repeat split; auto. constructor; auto.
@@ -311,6 +405,16 @@ Proof.
     + cbn in Es. injection Es as Ec Es. subst x.
       destruct (IHgmatch a' Es) as [ta [stars [tb [E1 [E2 [E3 E4]]]]]].
       exists (AnyChar :: ta), stars, tb. subst ts. repeat split; auto. apply GM_any; assumption.
+  - destruct a as [|x a'].
+    + cbn in Es. injection Es as Ec Es. subst c. apply wild_never_sep in H. discriminate.
+    + cbn in Es. injection Es as Ec Es. subst x.
+      destruct (IHgmatch a' Es) as [ta [stars [tb [E1 [E2 [E3 E4]]]]]].
+      exists (AnyWithin cs :: ta), stars, tb. subst ts. repeat split; auto. apply GM_within; assumption.
+  - destruct a as [|x a'].
+    + cbn in Es. injection Es as Ec Es. subst c. apply wild_never_sep in H. discriminate.
+    + cbn in Es. injection Es as Ec Es. subst x.
+      destruct (IHgmatch a' Es) as [ta [stars [tb [E1 [E2 [E3 E4]]]]]].
+      exists (AnyExcept cs :: ta), stars, tb. subst ts. repeat split; auto. apply GM_except; assumption.
   - destruct (IHgmatch a Es) as [ta [stars [tb [E1 [E2 [E3 E4]]]]]].
     exists (AnySequence :: ta), stars, tb. subst ts. repeat split; auto. apply GM_seq_nil. exact E3.
   - destruct a as [|x a'].
@@ -408,7 +512,7 @@ Qed.
 
 (* and inside it the stronger reading is false: "/d/*.l" matches "/d/.l" *)
 Theorem glob_dotfiles_component_refuted :
-  exists ts a b, parse_pattern [SLASH; 100; SLASH; STAR; DOT; 108] = Some ts /\
+  exists ts a b, parse_pattern [SLASH; 100; SLASH; STAR; DOT; 108] = Tokens ts /\
     matches_with ts (a ++ SLASH :: DOT :: b) = true /\
     ~ exists ta tb, ts = ta ++ Char SLASH :: Char DOT :: tb.
 Proof.
@@ -417,3 +521,239 @@ Proof.
   destruct ta as [|t0 [|t1 [|t2 [|t3 [|t4 [|t5 ta]]]]]]; cbn in E; try discriminate.
   repeat (destruct ta as [|? ta]; cbn in E; try discriminate).
 Qed.
+
+(* ---------- character classes: what they match ---------- *)
+
+(* a class token stands for exactly one character of the path: one that the class lists (does
+   not list, for [!...]), that is not a separator, and that is not a dot right after a separator *)
+Theorem glob_class : forall cs rest f s,
+  (matches_from (AnyWithin cs :: rest) f s = Match <->
+     exists c s1, s = c :: s1 /\ in_class cs c /\ c <> SLASH /\ ~ (f = true /\ c = DOT) /\
+                  matches_from rest false s1 = Match) /\
+  (matches_from (AnyExcept cs :: rest) f s = Match <->
+     exists c s1, s = c :: s1 /\ ~ in_class cs c /\ c <> SLASH /\ ~ (f = true /\ c = DOT) /\
+                  matches_from rest false s1 = Match).
+Proof.
+  assert (W : forall f c, wild_ok f c = true <-> c <> SLASH /\ ~ (f = true /\ c = DOT)).
+  { intros f c. unfold wild_ok, is_sep. rewrite andb_true_iff, !negb_true_iff, andb_false_iff. split.
+    - intros [H1 H2]. apply N.eqb_neq in H1. split; [exact H1|]. intros [Hf Hc]. subst f c.
+      destruct H2 as [H2|H2]; [discriminate|]. rewrite N.eqb_refl in H2. discriminate.
+    - intros [H1 H2]. split; [apply N.eqb_neq; exact H1|].
+      destruct f; [|left; reflexivity]. right. apply N.eqb_neq. intro E. apply H2. split; [reflexivity|exact E]. }
+  intros cs rest f s. split; rewrite matches_from_iff; split.
+  - intro G. apply gm_within_inv in G. destruct G as [c [s1 [Es [Hw [I G]]]]].
+    exists c, s1. apply W in Hw. destruct Hw as [H1 H2]. repeat split; auto. apply matches_from_iff. exact G.
+  - intros [c [s1 [Es [I [H1 [H2 G]]]]]]. subst s. apply GM_within; [apply W; split; assumption|exact I|].
+    apply matches_from_iff. exact G.
+  - intro G. apply gm_except_inv in G. destruct G as [c [s1 [Es [Hw [I G]]]]].
+    exists c, s1. apply W in Hw. destruct Hw as [H1 H2]. repeat split; auto. apply matches_from_iff. exact G.
+  - intros [c [s1 [Es [I [H1 [H2 G]]]]]]. subst s. apply GM_except; [apply W; split; assumption|exact I|].
+    apply matches_from_iff. exact G.
+Qed.
+
+(* a class alone, as a whole pattern (the start of the path counts as "after a separator") *)
+Corollary glob_class_alone : forall cs s,
+  (matches_with [AnyWithin cs] s = true <-> exists c, s = [c] /\ in_class cs c /\ c <> SLASH /\ c <> DOT) /\
+  (matches_with [AnyExcept cs] s = true <-> exists c, s = [c] /\ ~ in_class cs c /\ c <> SLASH /\ c <> DOT).
+Proof.
+  intros cs s. unfold matches_with.
+  assert (B : forall m, (match m with Match => true | _ => false end) = true <-> m = Match).
+  { intro m. destruct m; split; intro H; try reflexivity; discriminate. }
+  rewrite !B. destruct (glob_class cs [] true s) as [G1 G2]. rewrite G1, G2. split; split.
+  - intros [c [s1 [Es [I [H1 [H2 M]]]]]]. destruct s1; [|discriminate]. exists c. repeat split; auto.
+  - intros [c [Es [I [H1 H2]]]]. exists c, []. repeat split; auto. intros [_ E]. exact (H2 E).
+  - intros [c [s1 [Es [I [H1 [H2 M]]]]]]. destruct s1; [|discriminate]. exists c. repeat split; auto.
+  - intros [c [Es [I [H1 H2]]]]. exists c, []. repeat split; auto. intros [_ E]. exact (H2 E).
+Qed.
+
+(* ---------- character classes: how they are written ---------- *)
+
+Lemma not_dash_head : forall r : str, (forall b r', r <> DASH :: b :: r') ->
+  match r with d :: _ :: _ => (d =? DASH) = false | _ => True end.
+Proof.
+  intros r H. destruct r as [|d [|b r']]; auto. destruct (d =? DASH) eqn:E; [|reflexivity].
+  apply N.eqb_eq in E. subst d. exfalso. exact (H b r' eq_refl).
+Qed.
+
+Lemma char_specifiers_single : forall a r, (forall b r', r <> DASH :: b :: r') ->
+  char_specifiers (a :: r) = SingleChar a :: char_specifiers r.
+Proof.
+  intros a r H. apply not_dash_head in H. cbn [char_specifiers]. destruct r as [|d [|b r']]; try reflexivity.
+  rewrite H. reflexivity.
+Qed.
+
+Lemma char_specifiers_range : forall a b r,
+  char_specifiers (a :: DASH :: b :: r) = CharRange a b :: char_specifiers r.
+Proof. intros. cbn [char_specifiers]. rewrite N.eqb_refl. reflexivity. Qed.
+
+Lemma in_class_cons : forall sp cs c, in_class (sp :: cs) c <-> spec_has sp c \/ in_class cs c.
+Proof.
+  intros. unfold in_class. split.
+  - intros [sp' [[E|I] H]]; [subst; left; exact H|right; exists sp'; split; assumption].
+  - intros [H|[sp' [I H]]]; [exists sp; split; [left; reflexivity|exact H]|exists sp'; split; [right; exact I|exact H]].
+Qed.
+
+Lemma dash_shape_dec : forall r : str,
+  (exists b r', r = DASH :: b :: r') \/ (forall b r', r <> DASH :: b :: r').
+Proof.
+  intro r. destruct r as [|d [|b r']].
+  - right. intros; discriminate.
+  - right. intros; discriminate.
+  - destruct (d =? DASH) eqn:E.
+    + apply N.eqb_eq in E. subst d. left. exists b, r'. reflexivity.
+    + right. intros b0 r0 H. injection H as H1 _. subst d. rewrite N.eqb_refl in E. discriminate.
+Qed.
+
+(* the class a written body stands for *)
+Theorem char_specifiers_lists : forall body c, in_class (char_specifiers body) c <-> body_lists body c.
+Proof.
+  intro body. remember (length body) as n eqn:En. revert body En.
+  induction n as [n IH] using lt_wf_ind. intros body En c.
+  destruct body as [|a r].
+  - cbn. split; [intros [sp [[] _]]|intro H; inversion H].
+  - destruct (dash_shape_dec r) as [[b [r' E]]|Hn].
+    + subst r. rewrite char_specifiers_range, in_class_cons.
+      assert (L : (length r' < n)%nat) by (subst n; cbn; lia).
+      rewrite (IH _ L r' eq_refl c). cbn [spec_has]. split.
+      * intros [[H1 H2]|H]; [apply BL_range; assumption|apply BL_range_skip; exact H].
+      * intro H. inversion H; subst.
+        -- left. split; assumption.
+        -- right. assumption.
+        -- exfalso. exact (H3 b r' eq_refl).
+        -- exfalso. exact (H2 b r' eq_refl).
+    + rewrite (char_specifiers_single a r Hn), in_class_cons.
+      assert (L : (length r < n)%nat) by (subst n; cbn; lia).
+      rewrite (IH _ L r eq_refl c). cbn [spec_has]. split.
+      * intros [H|H]; [subst c; apply BL_single; exact Hn|apply BL_single_skip; assumption].
+      * intro H. inversion H; subst.
+        -- exfalso. exact (Hn b r0 eq_refl).
+        -- exfalso. exact (Hn b r0 eq_refl).
+        -- left. reflexivity.
+        -- right. assumption.
+Qed.
+
+(* the search for the closing bracket, named *)
+Fixpoint scan_class (mk : str -> token) (acc l : str) : parsed :=
+  match l with
+  | [] => PatternError
+  | d :: l' => if d =? RBRACKET then push (mk (rev acc)) (parse_pattern l') else scan_class mk (d :: acc) l'
+  end.
+
+Lemma parse_bracket : forall y r2, y <> BANG ->
+  parse_pattern (LBRACKET :: y :: r2) = scan_class (fun b => AnyWithin (char_specifiers (y :: b))) [] r2.
+Proof.
+  intros y r2 Hy. cbn [parse_pattern].
+  change (LBRACKET =? QUESTION) with false. change (LBRACKET =? STAR) with false.
+  change (LBRACKET =? LBRACKET) with true. cbv iota.
+  apply N.eqb_neq in Hy. rewrite Hy.
+  generalize (@nil N). induction r2 as [|d l IH]; intro acc; [reflexivity|].
+  cbn [scan_class]. destruct (d =? RBRACKET); [reflexivity|]. apply IH.
+Qed.
+
+Lemma parse_bracket_not : forall x r3,
+  parse_pattern (LBRACKET :: BANG :: x :: r3) = scan_class (fun b => AnyExcept (char_specifiers (x :: b))) [] r3.
+Proof.
+  intros x r3. cbn [parse_pattern].
+  change (LBRACKET =? QUESTION) with false. change (LBRACKET =? STAR) with false.
+  change (LBRACKET =? LBRACKET) with true. change (BANG =? BANG) with true. cbv iota.
+  generalize (@nil N). induction r3 as [|d l IH]; intro acc; [reflexivity|].
+  cbn [scan_class]. destruct (d =? RBRACKET); [reflexivity|]. apply IH.
+Qed.
+
+Lemma scan_class_closed : forall mk b acc rest, ~ In RBRACKET b ->
+  scan_class mk acc (b ++ RBRACKET :: rest) = push (mk (rev acc ++ b)) (parse_pattern rest).
+Proof.
+  induction b as [|d b IH]; intros acc rest H.
+  - cbn [app scan_class]. change (RBRACKET =? RBRACKET) with true. cbv iota. rewrite app_nil_r. reflexivity.
+  - cbn [app scan_class]. destruct (d =? RBRACKET) eqn:E.
+    + apply N.eqb_eq in E. exfalso. apply H. left. exact E.
+    + rewrite IH; [|intro I; apply H; right; exact I]. cbn [rev]. rewrite <- app_assoc. reflexivity.
+Qed.
+
+Lemma scan_class_open : forall mk b acc, ~ In RBRACKET b -> scan_class mk acc b = PatternError.
+Proof.
+  induction b as [|d b IH]; intros acc H; [reflexivity|].
+  cbn [scan_class]. destruct (d =? RBRACKET) eqn:E.
+  - apply N.eqb_eq in E. exfalso. apply H. left. exact E.
+  - apply IH. intro I. apply H. right. exact I.
+Qed.
+
+(* `[` first-character body-up-to-the-next-`]` `]`: the first character of the body is taken as
+   it is, also when it is `]` *)
+Theorem parse_class : forall y b rest, y <> BANG -> ~ In RBRACKET b ->
+  parse_pattern (LBRACKET :: y :: b ++ RBRACKET :: rest) =
+  push (AnyWithin (char_specifiers (y :: b))) (parse_pattern rest).
+Proof. intros. rewrite parse_bracket by assumption. rewrite scan_class_closed by assumption. reflexivity. Qed.
+
+Theorem parse_class_not : forall x b rest, ~ In RBRACKET b ->
+  parse_pattern (LBRACKET :: BANG :: x :: b ++ RBRACKET :: rest) =
+  push (AnyExcept (char_specifiers (x :: b))) (parse_pattern rest).
+Proof. intros. rewrite parse_bracket_not. rewrite scan_class_closed by assumption. reflexivity. Qed.
+
+(* a `[` whose body is not closed makes the whole pattern invalid *)
+Theorem parse_class_unclosed : forall r,
+  match r with
+  | [] => True                                       (* "[" *)
+  | y :: b => if y =? BANG
+              then match b with [] => True | _ :: b' => ~ In RBRACKET b' end     (* "[!", "[!x..." *)
+              else ~ In RBRACKET b                                                (* "[y..." *)
+  end ->
+  parse_pattern (LBRACKET :: r) = PatternError.
+Proof.
+  intros r H. destruct r as [|y b]; [reflexivity|].
+  destruct (y =? BANG) eqn:E.
+  - apply N.eqb_eq in E. subst y. destruct b as [|x b']; [reflexivity|].
+    rewrite parse_bracket_not. apply scan_class_open. exact H.
+  - apply N.eqb_neq in E. rewrite parse_bracket by exact E. apply scan_class_open. exact H.
+Qed.
+
+(* characters in front of a class, or of an unclosed bracket: anything but `*` and `[` is read alone *)
+Definition plain_token (c : N) : token := if c =? QUESTION then AnyChar else Char c.
+
+Lemma parse_plain_cons : forall c r, c <> STAR -> c <> LBRACKET ->
+  parse_pattern (c :: r) = push (plain_token c) (parse_pattern r).
+Proof.
+  intros c r H1 H2. cbn [parse_pattern]. unfold plain_token. destruct (c =? QUESTION); [reflexivity|].
+  apply N.eqb_neq in H1, H2. rewrite H1, H2. reflexivity.
+Qed.
+
+Theorem parse_error_after_plain : forall pre s,
+  Forall (fun c => c <> STAR /\ c <> LBRACKET) pre ->
+  parse_pattern s = PatternError -> parse_pattern (pre ++ s) = PatternError.
+Proof.
+  induction pre as [|c pre IH]; intros s F H; [exact H|].
+  inversion F as [|? ? [H1 H2] F']; subst. cbn [app]. rewrite parse_plain_cons by assumption.
+  rewrite (IH s F' H). reflexivity.
+Qed.
+
+(* 202[34], q[1-4], [!a], []], [!]], [a-], and the invalid ones *)
+Example class_examples :
+  parse_pattern [50; 48; 50; LBRACKET; 51; 52; RBRACKET] =
+    Tokens [Char 50; Char 48; Char 50; AnyWithin [SingleChar 51; SingleChar 52]]
+  /\ parse_pattern [113; LBRACKET; 49; DASH; 52; RBRACKET] = Tokens [Char 113; AnyWithin [CharRange 49 52]]
+  /\ parse_pattern [LBRACKET; BANG; 97; RBRACKET; STAR] = Tokens [AnyExcept [SingleChar 97]; AnySequence]
+  /\ parse_pattern [LBRACKET; RBRACKET; RBRACKET] = Tokens [AnyWithin [SingleChar RBRACKET]]
+  /\ parse_pattern [LBRACKET; BANG; RBRACKET; RBRACKET] = Tokens [AnyExcept [SingleChar RBRACKET]]
+  /\ parse_pattern [LBRACKET; 97; DASH; RBRACKET] = Tokens [AnyWithin [SingleChar 97; SingleChar DASH]]
+  /\ parse_pattern [LBRACKET; RBRACKET; DASH; 97; RBRACKET] = Tokens [AnyWithin [CharRange RBRACKET 97]]
+  /\ parse_pattern [LBRACKET; BANG; RBRACKET] = PatternError
+  /\ parse_pattern [LBRACKET; RBRACKET] = PatternError
+  /\ parse_pattern [97; LBRACKET; 98] = PatternError
+  /\ parse_pattern [97; LBRACKET; 98; STAR; STAR] = PatternError
+  /\ parse_pattern [STAR; STAR; LBRACKET] = Recursive.
+Proof. repeat split; reflexivity. Qed.
+
+Example class_match_examples :
+  glob_match [SLASH; 100; SLASH; 50; LBRACKET; 51; 52; RBRACKET] [SLASH; 100; SLASH; 50; 51] = Some true
+  /\ glob_match [SLASH; 100; SLASH; 50; LBRACKET; 51; 52; RBRACKET] [SLASH; 100; SLASH; 50; 53] = Some false
+  /\ glob_match [SLASH; 100; SLASH; LBRACKET; BANG; 97; RBRACKET; STAR] [SLASH; 100; SLASH; 98; 99] = Some true
+  /\ glob_match [SLASH; 100; SLASH; LBRACKET; BANG; 97; RBRACKET; STAR] [SLASH; 100; SLASH; 97; 99] = Some false
+  (* a class never matches a leading dot, nor a separator, even when it lists them *)
+  /\ glob_match [SLASH; 100; SLASH; LBRACKET; BANG; 97; RBRACKET; STAR] [SLASH; 100; SLASH; DOT; 99] = Some false
+  /\ glob_match [SLASH; 100; SLASH; LBRACKET; DOT; RBRACKET; 99] [SLASH; 100; SLASH; DOT; 99] = Some false
+  /\ glob_match [SLASH; 100; LBRACKET; SLASH; RBRACKET; 99] [SLASH; 100; SLASH; 99] = Some false
+  /\ glob_match [SLASH; 100; LBRACKET; BANG; 97; RBRACKET; 99] [SLASH; 100; SLASH; 99] = Some false
+  (* ... but does match a dot elsewhere; case sensitive *)
+  /\ glob_match [SLASH; 97; LBRACKET; DOT; RBRACKET; 99] [SLASH; 97; DOT; 99] = Some true
+  /\ glob_match [SLASH; LBRACKET; 97; RBRACKET] [SLASH; 65] = Some false.
+Proof. repeat split; reflexivity. Qed.
